@@ -250,6 +250,7 @@ MUTANTS = [
     ('c15-localfirst', 'C15', BIGMAP, '        val = next((v for k, v in self if k == key), Undefined)  # search in diff', '        val = next((v for k, v in self.items if k == key), Undefined)  # search in diff', 'locally removed keys read through to the chain'),
     ('c15-dupshare', 'C15', BIGMAP, '            items=deepcopy(self.items),\n            ptr=self.ptr,\n            removed_keys=deepcopy(self.removed_keys),', '            items=self.items,\n            ptr=self.ptr,\n            removed_keys=self.removed_keys,', 'DUP shares the lists (updates create new lists, so still correct) — expected to SURVIVE'),
     ('c15-gethash', 'C15', BIGMAP, '            key_hash = forge_script_expr(key.pack(legacy=True))\n            val_expr', '            key_hash = forge_script_expr(key.pack(legacy=True)[:-1] + b"\\x00")\n            val_expr', 'lazy read uses a corrupted key hash'),
+    ('c15-ignoreblockid', 'C15', IMPL, "            return self.shell.blocks[self.block_id].context.big_maps[ptr][key_hash]()", "            return self.shell.blocks['head'].context.big_maps[ptr][key_hash]()", 'lazy read ignores the context block id (always reads the head)'),
 ]
 MICHELINE = 'pytezos/michelson/micheline.py'
 MUTANTS += [
